@@ -332,6 +332,8 @@ def recording(rec):
     def mid(self, *a, **k):
         out = f_mid(self, *a, **k)
         rec["mid"] = np.array(out, dtype=float)
+        if "all_mid" in rec:
+            rec["all_mid"].append(rec["mid"])
         return out
 
     try:
@@ -489,49 +491,69 @@ def step6_cases(rng, count, nmax, cs, problems, res):
                "step6-assignment", case, exact(tlist(out_sorted)))
 
 
-# ------------------------------------------------------------------ 6. whole pipeline on single-month data
+# ------------------------------------------------------------------ 6. whole pipeline, month mode
 def month_cases(rng, count, problems, res):
-    """`apply_location(running_window_mode=False)` on data of one calendar month: the number of exact lower-bound
-    values in the output is round(n * P) of the raw series' frequencies (pr; steps 2-5 do not change which values are
-    beyond the threshold).  A test of the assembled pipeline, small budget."""
-    res.extra.setdefault("month_runs", 0)
-    res.extra.setdefault("month_skipped", 0)
+    """`apply_location(running_window_mode=False)` on daily data of whole years: in every calendar month (= window)
+    the number of outputs exactly at the lower / upper bound is round(n * P) of the raw series' frequencies in that
+    month (steps 2-5 do not change which values are beyond a threshold; detrending is off for these variables).
+    A test of the assembled pipeline, small budget.  (Data of a single month cannot be used: month mode runs all
+    twelve months and an empty month makes `round(size * nan)` raise.)"""
     import datetime
 
-    for _ in range(count):
+    for key in ("month_windows", "month_skipped", "month_guard_excluded"):
+        res.extra.setdefault(key, 0)
+
+    def dates(y0, nyears):
+        d0 = datetime.date(y0, 1, 1)
+        return np.array([d0 + datetime.timedelta(days=k) for k in range(365 * nyears)], dtype=object)
+
+    for i in range(count):
+        var = VARS[i % 3]
         adj = 0 if rng.random() < 0.3 else 1
         with warnings.catch_warnings():
             warnings.simplefilter("ignore")
-            deb = _isimip().from_variable("pr", running_window_mode=False, bias_correct_frequencies_of_values_beyond_thresholds=bool(adj))
-        month = rng.randint(1, 12)
-        ny = [rng.randint(2, 5) for _ in range(3)]
-
-        def dates(y0, nyears):
-            return np.array([datetime.date(y0 + y, month, d) for y in range(nyears) for d in range(1, 29)])
-
-        t_o, t_h, t_f = dates(1980, ny[0]), dates(1980, ny[1]), dates(2050, ny[2])
-        fr = [rng.choice(FRACS[:-1]) for _ in range(3)]
-        obs = gen_series(rng, "pr", deb, t_o.size, min(fr[0], 0.8), 0.0)
-        cmh = gen_series(rng, "pr", deb, t_h.size, min(fr[1], 0.8), 0.0, wet_scale=rng.choice([1.0, 0.7, 1.3]))
-        cmf = gen_series(rng, "pr", deb, t_f.size, min(fr[2], 0.8), 0.0, wet_scale=rng.choice([1.0, 0.8, 1.5]))
+            deb = _isimip().from_variable(var, running_window_mode=False, bias_correct_frequencies_of_values_beyond_thresholds=bool(adj))
+        t_o, t_h, t_f = dates(1980, rng.randint(2, 3)), dates(1981, rng.randint(2, 3)), dates(2050, rng.randint(2, 3))
+        two = deb.has_upper_threshold
+        fr = [(min(rng.choice(FRACS), 0.6), rng.choice([0.0, 0.05, 0.2, 0.35]) if two else 0.0) for _ in range(3)]
+        obs = gen_series(rng, var, deb, t_o.size, *fr[0])
+        cmh = gen_series(rng, var, deb, t_h.size, *fr[1], wet_scale=rng.choice([1.0, 0.7, 1.3]))
+        cmf = gen_series(rng, var, deb, t_f.size, *fr[2], wet_scale=rng.choice([1.0, 0.8, 1.5]))
+        np.random.seed(rng.randint(0, 2**31 - 1))  # step 4 randomises the values beyond the thresholds
+        rec = {"all_mid": []}
         try:
             with warnings.catch_warnings(), np.errstate(all="ignore"):
                 warnings.simplefilter("ignore")
-                out = deb.apply_location(obs.copy(), cmh.copy(), cmf.copy(), t_o, t_h, t_f)
-                exp = expected_counts(deb, obs, cmh, cmf)
+                with recording(rec):
+                    out = np.asarray(deb.apply_location(obs.copy(), cmh.copy(), cmf.copy(), t_o, t_h, t_f), dtype=float)
         except Exception as ex:  # noqa: BLE001
             res.extra["month_skipped"] += 1
             if len(res.notes) < 5:
-                res.notes.append(f"single-month apply_location raised {type(ex).__name__}: {str(ex)[:120]}")
+                res.notes.append(f"month-mode apply_location[{var}] raised {type(ex).__name__}: {str(ex)[:120]}")
             continue
-        res.extra["month_runs"] += 1
-        el, P = exp["lower"]
-        got = int((np.asarray(out) == deb.lower_bound).sum())
-        res.count(("month", adj, el * 6 // (cmf.size + 1)), True)
-        if got != el:
-            problems.append(("apply_location (one month): number of outputs at the lower bound != round(n * P)",
-                             {"kind": "month", "variable": "pr", "adjust": adj, "month": month, "years": ny, "obs": obs.tolist(),
-                              "cm_hist": cmh.tolist(), "cm_future": cmf.tolist(), "P": P, "round(n*P)": el, "outputs_at_lower_bound": got}))
+        lo, hi = float(deb.lower_bound), float(deb.upper_bound)
+        if len(rec["all_mid"]) != 12 or not all(lo < v < hi for m in rec["all_mid"] for v in m.tolist()):
+            res.extra["month_guard_excluded"] += 1  # a month without mapped values / a mapped value on a bound
+            continue
+        mon = lambda t: np.array([d.month for d in t])  # noqa: E731
+        m_o, m_h, m_f = mon(t_o), mon(t_h), mon(t_f)
+        for m in range(1, 13):
+            a, b, c = obs[m_o == m], cmh[m_h == m], cmf[m_f == m]
+            with warnings.catch_warnings(), np.errstate(all="ignore"):
+                warnings.simplefilter("ignore")
+                exp = expected_counts(deb, a, b, c)
+            (el, Pl), (eu, Pu) = exp["lower"], exp["upper"]
+            o = out[m_f == m]
+            got = (int((o == lo).sum()), int((o == hi).sum()))
+            res.extra["month_windows"] += 1
+            res.count(("month", var, adj, el * 6 // (c.size + 1), eu * 6 // (c.size + 1)), True)
+            ok = (got[0] + got[1] == c.size) if el + eu > c.size else (got == (el, eu))
+            if not ok:
+                problems.append(("apply_location (month mode): outputs at the lower/upper bound in a month != round(n * P)",
+                                 {"kind": "month", "variable": var, "adjust": adj, "month": m, "obs_hist": a.tolist(), "cm_hist": b.tolist(),
+                                  "cm_future": c.tolist(), "P_lower": Pl, "P_upper": Pu, "round(n*P_lower)": el, "round(n*P_upper)": eu,
+                                  "outputs_at_lower_bound": got[0], "outputs_at_upper_bound": got[1]}))
+                break
 
 
 # ------------------------------------------------------------------ the check
@@ -556,6 +578,18 @@ def run(tier, res, force_search=False):
     lean_ok = C.lean_phase(res, PROP, GEN, TARGETS)
     boost = 3 if (force_search or not lean_ok) else 1
     quick = tier == "quick"
+    if not quick and lean_ok:  # thorough: re-check the compiled declarations of the property modules with the external kernel
+        import fcntl
+
+        mods = ["IbicusModel.Props.C11", "IbicusModel.Lemmas.GenIsimipFreq", "IbicusModel.Lemmas.IsimipFreq",
+                "IbicusModel.Model.IsimipFreq", "IbicusModel.Gen.IsimipFreq"]
+        with open(C.LOCK, "w") as lk:
+            fcntl.flock(lk, fcntl.LOCK_SH)
+            rc, log = C._run(["lake", "env", "leanchecker"] + mods)
+        res.extra["leanchecker"] = "ok" if rc == 0 else f"rc={rc}: {log[-300:]}"
+        if rc != 0:
+            res.tie_broken.append("leanchecker rejects the property modules: " + log[-300:])
+            lean_ok = False
 
     cs, problems = Cases(), []
     p_grids(24 if quick else 60, cs, problems, res)
@@ -582,7 +616,7 @@ def run(tier, res, force_search=False):
         res.tie_broken.append(f"step6 raised in {res.extra['step6_exceptions']} of {runs + res.extra['step6_exceptions']} generated cases")
 
     # assembled pipeline (small budget always; larger when a tie is broken)
-    month_cases(rng, (6 if quick else 60) * (3 if (mismatches or not lean_ok or force_search) else 1), problems, res)
+    month_cases(rng, (3 if quick else 30) * (3 if (mismatches or not lean_ok or force_search) else 1), problems, res)
     if (mismatches or not lean_ok) and not problems:  # a tie is broken: widen the failing-input search on the real code
         cs2 = Cases()
         step6_cases(rng, 600, 120, cs2, problems, res)
@@ -648,8 +682,13 @@ def replay(data):
         print(f"step6[{fi['variable']}]: outputs at lower/upper bound = {(out == deb.lower_bound).sum()}/{(out == deb.upper_bound).sum()}, "
               f"round(n*P) = {exp['lower'][0]}/{exp['upper'][0]}")
     elif kind == "month":
-        print("replay of single-month pipeline cases: re-run ./check C11 with the same VERIF_SEED")
-        return 1
+        # the month's raw series, straight through step6 (obs_future := obs_hist): same counts as in the pipeline
+        deb = _deb(fi["variable"], fi["adjust"])
+        obs, cmh, cmf = (np.array(fi[k], dtype=float) for k in ("obs_hist", "cm_hist", "cm_future"))
+        out, rec, raw, exp = run_step6(deb, obs, obs, cmh, cmf)
+        step6_oracle(fi["variable"], fi["adjust"], deb, obs, obs, cmh, cmf, out, rec, exp, problems, res)
+        print(f"step6[{fi['variable']}] on the month's series: outputs at lower/upper bound = {(out == deb.lower_bound).sum()}/"
+              f"{(out == deb.upper_bound).sum()}, round(n*P) = {exp['lower'][0]}/{exp['upper'][0]}")
     else:
         print("unknown failing-input kind", kind)
         return 2
